@@ -308,6 +308,10 @@ val render_part :
   (label -> bool) -> (label -> loc outcome) -> char list -> bool -> char list
   outcome
 
+val render_item :
+  (label -> bool) -> (label -> loc outcome) -> char list -> bool -> char list
+  outcome
+
 val resolve_group :
   (label -> bool) -> (label -> loc outcome) -> char list -> char list outcome
 
